@@ -114,7 +114,7 @@ CLAIMED = {
         "run by harness/translate_units.py: same symbols, same kinds, exactly the code's factors in their decimal meaning; every chain row builds 10^prefix litres / 10^prefix mol per litre). The model is tied to units.py on "
         "every run by an exhaustive sweep of every same-kind symbol pair x exponents -3..3, all derived symbols and all "
         "target forms through the public API, plus sampled (source, via, destination) triples; each comparison is "
-        "evaluated inside Coq at relative 1e-12.",
+        "evaluated inside Coq at relative 1e-12. Composite unit texts - several factors of one base written separately (the same symbol twice, a litre symbol beside its base length, a molar symbol beside the litre) - are converted too and must read as the sum of the exponents.",
         "Trusted: Coq kernel + VM; the hand-written model of compute_conversion_factor/convert_unitvalue/UnitArray.convert/"
         "parse_units' derived-symbol tables (tied by correspondence, exhaustive on the symbol tables, sampled on triples); "
         "binary64 rounding bounded by the property's own 1e-12; the translator harness/translate_units.py (fail-closed: number literals, "
@@ -152,7 +152,7 @@ CLAIMED = {
         "(grid/graph, four policies, four init_state_processing modes) executed in one child process as reference, again, on another "
         "object, after unrelated simulations, under random partitions incl. iterate_n(0) and run(0/1/3 ms), from the script stored in the "
         "trajectory, from rng_seed=None and then its stored script, with another seed (Euler identical, Gillespie different), and in a "
-        "fresh process; times and data compared bit for bit in Coq. The same run is also asked for through simulate() with every script property as a keyword argument.",
+        "fresh process; times and data compared bit for bit in Coq. The same run is also asked for through simulate() with every script property as a keyword argument. A geometric sibling (the same cells and edges, other surfaces, distances and volumes) is the first set-up of a fresh engine object on which the script then runs.",
         "Trusted: Coq kernel + VM; the modelling assumption that an iteration is a function of the simulation object alone (no static, "
         "clock or uninitialised memory) is exactly what the correspondence tests, by sampling (60 scripts x 11 runs quick, 1500 thorough); "
         "PARTIAL: real wall-clock slicing of run(ms) is sampled (0, 1, 3 ms), the theorem covers all slicings of the model; 'a different "
@@ -190,7 +190,7 @@ CLAIMED = {
         "(C10_two_objects_refuted, known finding F13). Tied to the code on every run: all respecting one-object histories up to 4 (5) "
         "calls, random histories up to 14 calls over one and two objects, each in a child process with a time limit (crash and hang are "
         "observations), every return value compared in Coq; whole runs of random scripts (three engines, four init_state_processing modes, "
-        "amounts below one molecule) must return and complete after floor(t_max/dt)+1 iterations. Two or more engine objects used in turn (at most one live simulation at a time) refine the specification too (C10_exclusive_sessions), and simulate_script (Model/Simulate.v: set-up, run until completion with optional progress queries, fetch the output, finalize) keeps that discipline: for every sequence of simulate calls on any engine objects the implementation model returns the specification's outcomes, reaches no undefined behaviour, and every call returns what it would return alone in a fresh process (C10_simulate_sequence, C10_simulate_isolated); the calls simulate_script really makes, recorded by a proxy engine over sequences of 1-4 calls on one or two engines, are compared with the modelled history and the specification's outcomes.",
+        "amounts below one molecule) must return and complete after floor(t_max/dt)+1 iterations. Two or more engine objects used in turn (at most one live simulation at a time) refine the specification too (C10_exclusive_sessions), and simulate_script (Model/Simulate.v: set-up, run until completion with optional progress queries, fetch the output, finalize) keeps that discipline: for every sequence of simulate calls on any engine objects the implementation model returns the specification's outcomes, reaches no undefined behaviour, and every call returns what it would return alone in a fresh process (C10_simulate_sequence, C10_simulate_isolated); the calls simulate_script really makes, recorded by a proxy engine over sequences of 1-4 calls on one or two engines, are compared with the modelled history and the specification's outcomes. An event-driven run that reports 'unfinished' while its clock no longer moves is a run that does not terminate.",
         "Trusted: Coq kernel + VM; the hand-written lifecycle models (the simulation inside is the sampling machine of C09 with the "
         "chemical state abstracted) tied by exhaustive-to-length-4 + sampled correspondence; run(ms) is exercised with ms = 0 only (one "
         "iteration; wall-clock slicing is C08's subject); non-termination is observed as 'no return within 12-15 s'; Gillespie runs are only "
@@ -238,7 +238,7 @@ CLAIMED = {
         "(stability), up to 6 of the alias substitution sites per object (~5000 sites per quick run), a multi-file system layout "
         "(sub-directory, .npy state, text chemostats, relative and absolute paths), a nested script layout (script -> system file in another directory -> its own network / space / state / chemostats files -> the grid's environments file) and a dictionary with every documented default "
         "omitted; the physical content (all quantities in SI, labels, stoichiometry, geometry, flags, unit systems, sampling parameters, "
-        "processing mode, seed, times, data) of each result is compared with the original's in Coq.",
+        "processing mode, seed, times, data) of each result is compared with the original's in Coq. Environments that share a value are handed to the constructors under one grouped key (\\"e0, e1\\"), with and without blanks around the comma, in every check that draws systems.",
         "Trusted: Coq kernel + VM; harness/fingerprint.py (which fields constitute the physical content: bases of a unit with a zero "
         "exponent are not compared, following Units.__eq__); sampled correspondence (150 objects quick, 3000 thorough); the translator "
         "harness/translate_schemas.py (Python ast -> Model/Schemas.v; it reads the literal synonym table passed to process_input_dict_keys, "
